@@ -69,6 +69,16 @@ def _val(r):
 def cases(M):
     r = gen.rng(M)
     n = (2000000 if M.tier == "thorough" else 200000) // M.nshards
+    # intervals that compare equal (same tzinfo object, same wall clock) but differ in length: the two passes of one
+    # repeated wall time as an endpoint - visited one after the other in one process, in both orders
+    from pvmon.oracle import tzdb
+
+    for zn in gen.hostile()[M.shard::M.nshards] + ["Europe/Paris"]:
+        z = tzdb.Z.get(zn)
+        ov = [(t, ob, oa) for (t, ob, oa, _) in z.trans if oa < ob and 1950 < 1970 + t // 31556952 < 2037]
+        for t, ob, oa in ov[-6:]:
+            yield {"k": "siblings", "z": zn, "w": (t + oa) * US + r.randrange((ob - oa) * US), "first": r.randrange(2), "k_": r.choice((2, 3, -5)),
+                   "a": r.randrange(1, 10**10)}
     for j in range(n):
         (ma, a), (mb, b) = _val(r), _val(r)
         k = r.choice((r.randrange(-1000, 1001), r.randrange(-10**6, 10**6), 2, -2, 3, 7))
@@ -132,7 +142,37 @@ def _cmp(M, mon, opname, got, exp, want_type, **ctx):
             got_type=type(g).__name__, **ctx)
 
 
+def _siblings(M, c):
+    from pvmon.common import us_to_fields
+
+    P = M.pendulum
+    tz = P.timezone(c["z"])
+    F = us_to_fields(c["w"])
+    e = [P.DateTime(*F, tzinfo=tz, fold=0), P.DateTime(*F, tzinfo=tz, fold=1)]
+    s0 = P.DateTime(*us_to_fields(c["w"] - 20 * 3600 * US), tzinfo=tz, fold=1)
+    order = [c["first"], 1 - c["first"]]
+    ta = dt.timedelta(microseconds=c["a"])
+    da = _d(M, c["a"])
+    k = c["k_"]
+    for f_ in order:
+        iv = e[f_] - s0
+        tl = dt.timedelta(microseconds=td_us(iv))          # its own length as a plain timedelta
+        ctx = {"a_us": c["a"], "b_us": td_us(iv), "zone": c["z"], "fold": f_, "position": order.index(f_)}
+        M.cls("siblings", c["z"], f_, order.index(f_))
+        _cmp(M, "interval_ops", "sibling-add", _try(lambda: iv + da), _try(lambda: tl + ta), "Duration", **ctx)
+        _cmp(M, "interval_ops", "sibling-radd", _try(lambda: ta + iv), _try(lambda: ta + tl), None, **ctx)
+        _cmp(M, "interval_ops", "sibling-sub", _try(lambda: iv - ta), _try(lambda: tl - ta), "Duration", **ctx)
+        _cmp(M, "interval_ops", "sibling-mul", _try(lambda: iv * k), _try(lambda: tl * k), "Duration", k=k, **ctx)
+        _cmp(M, "interval_ops", "sibling-floordiv", _try(lambda: iv // ta), _try(lambda: tl // ta), "number", **ctx)
+        _cmp(M, "interval_ops", "sibling-mod", _try(lambda: iv % ta), _try(lambda: tl % ta), "Duration", **ctx)
+        M.check("interval_ops", (iv == tl) is True and (iv.as_duration() == tl), "C10/sibling-eq", "an interval does not equal the timedelta of its own length",
+                **ctx)
+
+
 def run(M, c):
+    if c.get("k") == "siblings":
+        _siblings(M, c)
+        return
     D = M.D
     a, b, k, f = c["a"], c["b"], c["k"], c["f"]
     M.sample(c)
